@@ -99,4 +99,9 @@ Definition dispatch (tbl : sx) (name : bytes) (arg : sx) : sx :=
     SL [sx_list SB fs; sx_rerr e; SB (r_buf st); sx_bool (r_magic st); sx_opt SN (r_len st)]
   else if is "send_stream" then
     SB (send_stream (map get_bytes (get_list arg)))
+  else if is "sender_run" then
+    let ops := map (fun o => if N.eqb (get_N (nth_sx 0 o)) 0 then OSend (get_bytes (nth_sx 1 o))
+                             else OCanSend (N.to_nat (get_N (nth_sx 1 o)))) (get_list arg) in
+    let st := s_run ops in
+    SL [SB (s_written st); SB (s_buf st); sx_list SB (s_backlog st); sx_bool (s_writing st)]
   else SL [SN 777].
